@@ -358,6 +358,35 @@ func cmdCheck(args []string) int {
 		sc.fullSec = 60
 		sc.twoSolv = true
 	}
+	// A clause that carries property tags and is recorded as a known finding of one of those properties is out of
+	// scope when a different property is checked (the function is shared between properties; the finding is not):
+	// it is decided, reported and suppressed under its own property only.
+	knownAll := loadKnown(filepath.Join(vd, "known-findings.txt"))
+	inScope := all[:0:0]
+	tagsOf := map[string][]string{}
+	for _, vc := range all {
+		if len(vc.Props) > 0 {
+			tagsOf[vc.Ob] = vc.Props
+		}
+	}
+	for _, vc := range all {
+		drop := false
+		base := strings.Replace(vc.Ob, "/cover[ensures.", "/ensures[", 1)
+		if len(vc.Props) == 0 {
+			vc.Props = tagsOf[base]
+		}
+		if len(vc.Props) > 0 && !containsStr(vc.Props, *prop) {
+			for _, k := range knownAll {
+				if k.Kind == "finding" && k.Obligation == base && containsStr(vc.Props, k.Property) {
+					drop = true
+				}
+			}
+		}
+		if !drop {
+			inScope = append(inScope, vc)
+		}
+	}
+	all = inScope
 	solveAll(all, sc)
 	obs := groupObligations(all)
 	obs = append(obs, tobs...)
@@ -467,6 +496,15 @@ func oneLine(s string) string {
 func positionalKind(name string) bool {
 	for _, k := range []string{"/bounds", "/div-by-zero", "/nil-map-write", "/typeassert", "/unreachable-panic", "/frame", "/lockset", "/lock-released"} {
 		if strings.HasSuffix(name, k) {
+			return true
+		}
+	}
+	return false
+}
+
+func containsStr(xs []string, x string) bool {
+	for _, y := range xs {
+		if y == x {
 			return true
 		}
 	}
